@@ -122,6 +122,7 @@ type ParserRoles struct {
 	CallRest          *ssa.Function // allocates CallExpression
 	MemberHi          *ssa.Function // primary then member rest
 	MergedLHS         bool          // LHS itself does primary, member rest and call rest (MemberHi == LHS)
+	MergedBinary      bool          // the climbing loop parses its first operand itself (Binary == Climb)
 	MemberRest        *ssa.Function // allocates SelectorExpression
 	Primary           *ssa.Function
 	Paren             *ssa.Function // allocates ParenthesizedExpression
@@ -296,6 +297,38 @@ func (c *Ctx) Roles() *ParserRoles {
 				}
 			}
 		})
+	}
+	if r.Binary == nil && r.ClimbOperandParam < 0 {
+		// wrapper and loop in one function: it parses its first operand itself and recurses for the right operands
+		self := false
+		for _, cs := range callsTo(r.Climb, r.Climb) {
+			if _, ok := cs.Call.Args[r.ClimbPrecParam].(*ssa.Parameter); !ok {
+				self = true
+			}
+		}
+		if self {
+			var first *ssa.Function
+			loops := naturalLoops(r.Climb)
+			instrs(r.Climb, func(b *ssa.BasicBlock, i int, in ssa.Instruction) {
+				call, ok := in.(*ssa.Call)
+				if !ok || first != nil {
+					return
+				}
+				for _, l := range loops {
+					if l.Body[b] {
+						return
+					}
+				}
+				cal := calleeOf(call)
+				if cal != nil && cal != r.Climb && c.inModule(cal) && cal.Signature.Results().Len() == 1 && typeName(cal.Signature.Results().At(0).Type()) == "Expression" {
+					first = cal
+				}
+			})
+			if first != nil {
+				r.Binary, r.MergedBinary = r.Climb, true
+				r.Unary = c.canon(first)
+			}
+		}
 	}
 	if r.Binary == nil {
 		r.Missing = append(r.Missing, "binary wrapper (caller of the climbing loop)")
